@@ -117,12 +117,21 @@ impl BuildOptimiser {
     }
 
     pub fn build(&self) -> MCOptimiser {
+        // An inner loop has at least one step, a value of zero would otherwise result in a
+        // division by zero when working out the number of loops.
+        let inner_steps = u64::max(u64::min(self.inner_steps, self.steps), 1);
         let kt_ratio = match (self.kt_ratio, self.kt_finish) {
             (Some(ratio), _) => 1. - ratio,
             // A temperature of zero stays at zero, there is no factor which takes it to the
             // finishing temperature (the division below would give an infinite or NaN factor).
             (None, Some(_)) if self.kt_start == 0. => 1.,
-            (None, Some(finish)) => f64::powf(finish / self.kt_start, 1. / self.steps as f64),
+            // The temperature is reduced once every inner loop, so the factor which takes the
+            // starting temperature to the finishing temperature is spread over the number of
+            // inner loops rather than the total number of steps.
+            (None, Some(finish)) => f64::powf(
+                finish / self.kt_start,
+                1. / u64::max(self.steps / inner_steps, 1) as f64,
+            ),
             (None, None) => 0.1,
         };
         debug!("Setting kt_ratio to: {}", kt_ratio);
@@ -136,9 +145,7 @@ impl BuildOptimiser {
             kt_ratio,
             max_step_size: self.max_step_size,
             steps: self.steps,
-            // An inner loop has at least one step, a value of zero would otherwise result in a
-            // division by zero when working out the number of loops.
-            inner_steps: u64::max(u64::min(self.inner_steps, self.steps), 1),
+            inner_steps,
             seed,
             convergence: self.convergence,
         }
